@@ -32,8 +32,11 @@ pub enum Content {
     TwoViaList,
     /// two matching credentials, no list
     TwoNoList,
+    /// matching credential named by a list of 40 entries in which it is the 17th (16 unknown ids
+    /// before it, 23 after): lists longer than any batch size a lookup might use
+    MatchViaLongList,
 }
-pub const CONTENTS: [Content; 6] = [Content::NoMatch, Content::MatchViaList, Content::MatchNoList, Content::OtherRpOnly, Content::TwoViaList, Content::TwoNoList];
+pub const CONTENTS: [Content; 7] = [Content::NoMatch, Content::MatchViaList, Content::MatchNoList, Content::OtherRpOnly, Content::TwoViaList, Content::TwoNoList, Content::MatchViaLongList];
 
 #[derive(Clone, Debug, Serialize, Deserialize, PartialEq, Eq, Hash)]
 pub struct Case {
@@ -141,6 +144,11 @@ fn store_for_ext(op: Op, content: Content, ext: bool) -> (RefStore, Option<Vec<V
         Content::TwoNoList => (RefStore::with(vec![own.clone(), other.clone(), own2.clone()]), None),
         Content::NoMatch => (RefStore::with(vec![]), None),
         Content::MatchViaList => (RefStore::with(vec![other, own]), Some(vec![cred_id(1)])),
+        Content::MatchViaLongList => {
+            let unknown = |k: u8| -> Vec<u8> { [vec![0xD0, k], vec![0x77; 14]].concat() };
+            let list: Vec<Vec<u8>> = (0..16u8).map(unknown).chain([cred_id(1)]).chain((16..39u8).map(unknown)).collect();
+            (RefStore::with(vec![other, own]), Some(list))
+        }
         Content::MatchNoList => (RefStore::with(vec![other, own]), None),
         Content::OtherRpOnly => (RefStore::with(vec![other]), Some(vec![cred_id(2)])),
     }
@@ -409,7 +417,7 @@ pub fn eval(c: &Case) -> (Vec<Finding>, Vec<String>) {
                     let expected_err = c.pin
                         || (c.op == Op::Get && c.rk)
                         || (c.op == Op::Get && matches!(content, Content::NoMatch | Content::OtherRpOnly))
-                        || (c.op == Op::Make && matches!(content, Content::MatchViaList | Content::TwoViaList))
+                        || (c.op == Op::Make && matches!(content, Content::MatchViaList | Content::TwoViaList | Content::MatchViaLongList))
                         // UV-only secrets evaluated at creation: without a verified user there is no
                         // secret the evaluation may use (UserVerificationBlocked, C09's subject)
                         || (c.op == Op::Make && c.ext == 2 && !(asked_uv && reported.map_or(false, |(_, v)| v)));
